@@ -74,6 +74,10 @@ def qapsplit():
     """
     global eqs, blocks
 
+    # every call starts from empty tables: the equation file read below holds the whole trace so far
+    eqs = dict()
+    blocks = dict()
+
     fns = dict()
     extblocks = set()
 
